@@ -2,7 +2,15 @@
 
 package bot
 
-import "io"
+import (
+	"io"
+
+	mcnet "github.com/Tnze/go-mc/net"
+)
 
 // exported view of the unexported idleTagsDecoder for the C08 harness (never written to /repo)
 func VerifC08IdleTags(r io.Reader) (int64, error) { return idleTagsDecoder{}.ReadFrom(r) }
+
+// VerifC08JoinConfiguration runs the configuration-state packet loop (the handler that contains the
+// update-tags decoder) on a caller-supplied connection.
+func (c *Client) VerifC08JoinConfiguration(conn *mcnet.Conn) error { return c.joinConfiguration(conn) }
